@@ -35,6 +35,18 @@ ecs_world! {
 
 const IDS: [u8; 3] = [0, 7, 255];
 
+/// A world with a SINGLE archetype (generated code may special-case it): forged and foreign handles at world level.
+mod solo {
+    use super::Ka;
+    use gecs::prelude::*;
+    ecs_world! {
+        ecs_name!(KS);
+        #[archetype_id(9)]
+        ecs_archetype!(Solo, Ka);
+    }
+}
+use solo::{Solo, KS};
+
 struct Fnv(u64);
 impl Hasher for Fnv {
     fn finish(&self) -> u64 {
@@ -595,10 +607,70 @@ fn c03_value(ctx: &Ctx, fx: &Fixed, key: u32, gen: u32, world_level: bool) {
     }
 }
 
+/// The single-archetype world KS (Solo, id 9; two live entities in positions 0 and 2 at generation 1, position 1 freed at
+/// generation 2, capacity 4): every archetype byte x boundary positions x generations as EntityAny, and the dynamic direct
+/// handles of the three-archetype world KW (bytes 0, 7, 255), through the WORLD-level API.
+fn c03_solo(ctx: &Ctx) -> u64 {
+    let mut w = KS::with_capacity(solo::KSCapacity { solo: 4 });
+    let e0 = w.create::<Solo>((Ka(10),));
+    let e1 = w.create::<Solo>((Ka(11),));
+    let e2 = w.create::<Solo>((Ka(12),));
+    w.destroy(e1);
+    let live: Vec<(u32, u32)> = vec![e0.into_any().raw(), e2.into_any().raw()];
+    let mut n = 0u64;
+    for b in 0..=255u32 {
+        for p in [0u32, 1, 2, 3, 4, 5, 0xFFFFFF] {
+            for g in [1u32, 2, 3, u32::MAX] {
+                n += 1;
+                let key = (p << 8) | b;
+                let inp = Inp { state: "single-archetype world", key, gen: g, direct_index: 0, archetype: 9 };
+                let Some(e) = raw_or_report(ctx, key, g, inp) else { continue };
+                let want = live.contains(&(key, g));
+                let r = catch_unwind(AssertUnwindSafe(|| (w.contains(e), w.to_direct(e).is_some())));
+                match r {
+                    Ok((c, d)) => {
+                        if !(b == 9 && c == want && d == want) {
+                            ctx.report("C03", "forged-handle-accepted:single-archetype-world", format!("KS::contains({:?}) = {}, to_direct = {}; live handles {:?}", e, c, d, live), inp);
+                        }
+                    }
+                    Err(_) => {
+                        if b == 9 && !cfg!(debug_assertions) {
+                            ctx.report("C03", "unexpected-panic:single-archetype-world", format!("KS::contains({:?}) panicked although id 9 is the world's archetype", e), inp);
+                        }
+                    }
+                }
+            }
+        }
+    }
+    // dynamic direct handles of another world type: their archetype bytes (0, 7, 255) do not exist in KS
+    let ver = w.archetype::<Solo>().version();
+    for idx in 0..4usize {
+        macro_rules! foreign {
+            ($B:ident) => {{
+                n += 1;
+                let d = gecs::__internal::new_entity_direct::<$B>(idx, ver).into_any();
+                let inp = Inp { state: "single-archetype world", key: 0, gen: 0, direct_index: idx, archetype: $B::ARCHETYPE_ID };
+                let r = catch_unwind(AssertUnwindSafe(|| (w.contains(d), w.to_direct(d).is_some())));
+                if let Ok((c, t)) = r {
+                    if c || t {
+                        ctx.report("C03", "foreign-direct-accepted:single-archetype-world", format!("KS::contains({:?}) = {}, to_direct = {} for a direct handle of another world's archetype", d, c, t), inp);
+                    }
+                }
+            }};
+        }
+        foreign!(Aa);
+        foreign!(Bb);
+        foreign!(Cc);
+    }
+    n
+}
+
 fn run_c03(full: bool, threads: usize, ctx: &Ctx) -> serde_json::Value {
     let pos = boundary_positions();
     let gens = [1u32, 2, 3, u32::MAX];
     let mut states = Vec::new();
+    let solo_values = c03_solo(ctx);
+    states.push(serde_json::json!({"state": "single-archetype world", "values": solo_values}));
     for which in 0..4 {
         let fx = build_state(which);
         // boundary: all 256 bytes x boundary positions (incl. everything around the capacity) x generations, world level included
